@@ -121,7 +121,9 @@ Theorem C01_list_files :
 Proof. exact rt_list. Qed.
 
 (* 3. get_file: the reported size is the byte count; reading to the end with ANY positive
-   buffer sizes delivers exactly the bytes given, and stops in Finish *)
+   buffer sizes delivers exactly the bytes given, and stops in Finish.  (zf: the bound on
+   consecutive empty content blocks `read` steps over, Reader.next_block — any value, even 0:
+   the writer emits no empty block) *)
 Theorem C01_get_file :
   forall FNMAX TS TC TA TE (H : bytes -> bytes) (order : footer -> footer),
   tags_distinct TS TC TA TE -> (forall x, len (H x) = 32) -> (forall f, Permutation (order f) f) ->
@@ -135,8 +137,8 @@ Theorem C01_get_file :
     get_file FNMAX TS TC TA TE S r name = (r', Ok (Some (bs, len (pieces 0 id ops)))) /\
     RS order sf S R r' /\
     forall sizes : nat -> N, (forall i, 0 < sizes i) ->
-    forall fuel, (length (pieces 0 id ops) < fuel)%nat ->
-    exists bs', read_all FNMAX TS TC TA TE S fuel bs sizes 0%nat [] = (bs', Ok (pieces 0 id ops)) /\
+    forall zf fuel, (length (pieces 0 id ops) < fuel)%nat ->
+    exists bs', read_all FNMAX TS TC TA TE S zf fuel bs sizes 0%nat [] = (bs', Ok (pieces 0 id ops)) /\
                 b_mode bs' = BFinish.
 Proof. exact rt_get_file. Qed.
 
@@ -154,8 +156,8 @@ Theorem C01_reads_ok :
   exists r' bs (Inv : bstate S -> bytes -> Prop),
     get_file FNMAX TS TC TA TE S r name = (r', Ok (Some (bs, len (pieces 0 id ops)))) /\
     Inv bs (pieces 0 id ops) /\
-    forall b todo n, Inv b todo -> 0 < n ->
-      exists b' d todo', bread FNMAX TS TC TA TE S b n = (b', Ok d) /\ len d <= n /\
+    forall zf b todo n, Inv b todo -> 0 < n ->
+      exists b' d todo', bread FNMAX TS TC TA TE S zf b n = (b', Ok d) /\ len d <= n /\
         todo = d ++ todo' /\ Inv b' todo' /\ (d = [] -> todo = [] /\ b_mode b' = BFinish).
 Proof. exact rt_reads_ok. Qed.
 
